@@ -127,15 +127,16 @@ theorem plainParent_ne_nil {fs : Fs} {path : Bytes} {d : CPath} (h : PlainParent
 theorem rmdir_plain (fs : Fs) (path : Bytes) (d : CPath) (h : PlainParent fs path d) :
     sysRmdir fs path =
       match fs.get d with
-      | some .dir => if fs.children d ≠ [] then (fs, .error .enotempty) else (fs.del d, .ok ())
+      | some .dir =>
+        if d.isPrefixOf cwd then (fs, .error .einval)
+        else if fs.children d ≠ [] then (fs, .error .enotempty) else (fs.del d, .ok ())
       | some _ => (fs, .error .enotdir)
       | none => (fs, .error .enoent) := by
   unfold sysRmdir
   rw [resolve_plainParent fs path d h]
-  have hd := plainParent_ne_nil h
   cases fs.get d with
   | none => rfl
-  | some e => cases e <;> simp [hd]
+  | some e => cases e <;> rfl
 
 theorem unlink_plain (fs : Fs) (path : Bytes) (d : CPath) (h : PlainParent fs path d) :
     sysUnlink fs path =
@@ -210,7 +211,7 @@ theorem sysRmdir_sub (fs : Fs) (path : Bytes) : Sub (sysRmdir fs path).1 fs := b
     cases e with
     | dir =>
       simp only
-      by_cases h1 : p = []
+      by_cases h1 : p.isPrefixOf cwd = true
       · simp [h1]; exact Sub.refl fs
       · by_cases h2 : fs.children p ≠ []
         · simp [h1, h2]; exact Sub.refl fs
@@ -349,6 +350,9 @@ theorem dirUnlink_frame : ∀ (fuel : Nat) (recursive : Bool) (fs : Fs) (path : 
       | link _ => simp; exact Frame.refl d fs
       | dir =>
         simp only
+        by_cases hcw : d.isPrefixOf cwd = true
+        · rw [if_pos hcw]; simp; exact Frame.refl d fs
+        rw [if_neg hcw]
         by_cases hch : fs.children d ≠ []
         · rw [if_pos hch]
           simp only
@@ -378,6 +382,7 @@ theorem dirUnlink_frame : ∀ (fuel : Nat) (recursive : Bool) (fs : Fs) (path : 
                   | link _ => exact hfin _ (Frame.refl d fs2)
                   | dir =>
                     simp only
+                    rw [if_neg hcw]
                     by_cases hch2 : fs2.children d ≠ []
                     · rw [if_pos hch2]; exact hfin _ (Frame.refl d fs2)
                     · rw [if_neg hch2]; exact hfin _ (frame_del fs2 d hd)
@@ -532,7 +537,7 @@ theorem sysRmdir_wf (fs : Fs) (path : Bytes) (hwf : WF fs) : WF (sysRmdir fs pat
     cases e with
     | dir =>
       simp only
-      by_cases h1 : p = []
+      by_cases h1 : p.isPrefixOf cwd = true
       · simp [h1]; exact hwf
       · by_cases h2 : fs.children p ≠ []
         · simp [h1, h2]; exact hwf
@@ -643,6 +648,9 @@ theorem rmdir_ok_gone (X X' : Fs) (path : Bytes) (d : CPath) (hwf : WF X) (hpp :
     | link _ => simp [hg] at h
     | dir =>
       simp only [hg] at h
+      by_cases hcw : d.isPrefixOf cwd = true
+      · simp [hcw] at h
+      rw [if_neg hcw] at h
       by_cases hch : X.children d ≠ []
       · simp [hch] at h
       · rw [if_neg hch] at h
@@ -693,9 +701,11 @@ theorem dirUnlink_true_gone (fuel : Nat) (recursive : Bool) (fs : Fs) (path : By
             | link _ => simp [hg] at this; exact this.1
             | dir =>
               simp only [hg] at this
-              by_cases hch : fs.children d ≠ []
-              · simp [hch] at this; exact this.1
-              · simp [hch] at this
+              by_cases hcw : d.isPrefixOf cwd = true
+              · simp [hcw] at this; exact this.1
+              · by_cases hch : fs.children d ≠ []
+                · simp [hcw, hch] at this; exact this.1
+                · simp [hcw, hch] at this
         subst hfs'
         by_cases hc : recursive = false ∨ e ≠ .enotempty
         · rw [if_pos hc] at h; simp at h
@@ -959,22 +969,24 @@ theorem le_maxDepth (fs : Fs) : ∀ x ∈ fs.ents, x.1.length ≤ maxDepth fs :=
 
 /-- recursive Directory::unlink of an existing plain directory succeeds when the fuel covers the depth -/
 theorem dirUnlink_succeeds : ∀ (fuel : Nat) (fs : Fs) (path : Bytes) (d : CPath),
-    WF fs → PlainParent fs path d → fs.get d = some .dir →
+    WF fs → PlainParent fs path d → fs.get d = some .dir → d.isPrefixOf cwd = false →
     (∀ x ∈ fs.ents, d <+: x.1 → x.1.length < d.length + fuel) →
     (dirUnlink fuel true fs path).2 = true := by
   intro fuel
   induction fuel with
   | zero =>
-    intro fs path d _ hpp hg hb
+    intro fs path d _ hpp hg _ hb
     have hd := plainParent_ne_nil hpp
     have := hb (d, .dir) (get_some_mem fs d .dir hd hg) (List.prefix_refl _)
     simp at this
   | succ fuel ih =>
-    intro fs path d hwf hpp hg hb
+    intro fs path d hwf hpp hg hcw hb
     have hd := plainParent_ne_nil hpp
+    have hcw' : ¬ (d.isPrefixOf cwd = true) := by simp [hcw]
     simp only [dirUnlink]
     rw [rmdir_plain fs path d hpp, hg]
     simp only
+    rw [if_neg hcw']
     by_cases hch : fs.children d ≠ []
     · rw [if_pos hch]
       simp only
@@ -984,16 +996,24 @@ theorem dirUnlink_succeeds : ∀ (fuel : Nat) (fs : Fs) (path : Bytes) (d : CPat
         (fun a b c h1 h2 => dirUnlink_frame fuel true a b c h1 h2)
         (fun a b hw => dirUnlink_wf fuel true a b hw)
         (fun a b c hw hp hs => dirUnlink_true_gone fuel true a b c hw hp hs)
-        (fun fs c => ∀ x ∈ fs.ents, c <+: x.1 → x.1.length < c.length + fuel)
-        (fun a a' c hs hbd x hx => hbd x (hs x hx))
-        (fun a b c hw hp hgc hbd => ih a b c hw hp hgc hbd)
+        (fun fs c => c.isPrefixOf cwd = false ∧ ∀ x ∈ fs.ents, c <+: x.1 → x.1.length < c.length + fuel)
+        (fun a a' c hs hbd => ⟨hbd.1, fun x hx => hbd.2 x (hs x hx)⟩)
+        (fun a b c hw hp hgc hbd => ih a b c hw hp hgc hbd.1 hbd.2)
         (fs.children d) fs hwf hpp hg (children_names fs hwf.names d) (children_distinct fs hwf.nodup d)
         (fun x hx => get_of_mem fs hwf.nodup _ _ (by simp) ((mem_children fs d x.1 x.2).mp hx))
-        (fun x _ y hy hpre => by
+        (fun x _ => ⟨by
+          cases hq : (d ++ [x.1]).isPrefixOf cwd with
+          | false => rfl
+          | true =>
+            exfalso
+            apply hcw'
+            exact List.isPrefixOf_iff_prefix.mpr
+              (List.IsPrefix.trans (List.prefix_append d [x.1]) (List.isPrefixOf_iff_prefix.mp hq)),
+          fun y hy hpre => by
           have hdy : d <+: y.1 := List.IsPrefix.trans (List.prefix_append d [x.1]) hpre
           have := hb y hy hdy
           simp only [List.length_append, List.length_cons, List.length_nil]
-          omega)
+          omega⟩)
       have hfr := unlinkEntries_frame (dirUnlink fuel true)
         (fun a b c h1 h2 => dirUnlink_frame fuel true a b c h1 h2) path d
         (fs.children d) fs (children_names fs hwf.names d) hwf.names hpp hg
@@ -1021,13 +1041,13 @@ theorem dirUnlink_succeeds : ∀ (fuel : Nat) (fs : Fs) (path : Bytes) (d : CPat
             rw [get_of_mem fs2 hw2.nodup _ _ (by simp) hm2] at h0
             simp at h0
         rw [rmdir_plain fs2 path d hpp2, hg2]
-        simp [hch2, isOk]
+        simp [hch2, isOk, hcw]
     · rw [if_neg hch]
 
 theorem dirUnlinkTop_succeeds (fs : Fs) (path : Bytes) (d : CPath) (hwf : WF fs) (hpp : PlainParent fs path d)
-    (hg : fs.get d = some .dir) : (dirUnlinkTop fs path true).2 = true := by
+    (hg : fs.get d = some .dir) (hcw : d.isPrefixOf cwd = false) : (dirUnlinkTop fs path true).2 = true := by
   unfold dirUnlinkTop
-  apply dirUnlink_succeeds _ fs path d hwf hpp hg
+  apply dirUnlink_succeeds _ fs path d hwf hpp hg hcw
   intro x hx _
   have := le_maxDepth fs x hx
   omega
